@@ -12,7 +12,8 @@ claim('C12', 'proof', 'Coq theorem (16-clause DFS invariant, induction on fuel a
       'Tie: partition equality with the Python generator on all digraphs <=3 nodes, 1/7 (quick) or all (thorough) of the 65536 4-node digraphs under 3 insertion orders, random to 12 nodes.')
 claim('C13', 'proof', 'Coq theorems (worklist invariant for reachability, fold invariants for construction/reversal/subgraph; independence on a heap model of successor sets; axiom-free) + differential test',
       'C13_reach/_reversed/_reversed_twice/_subgraph/_clone/_mk_graph for all well-formed graphs and node sets; independence on Model/GraphHeap.v (successor sets are heap cells): C13_clone_independent, _results_independent, '
-      '_session (any sequence of clone/reverse/subgraph/reach calls interleaved with the caller editing the graphs it got back: every call returns the pure value on the initial G, G unchanged), _shallow_clone_refuted, _cached_reverse_refuted. '
+      '_session (any sequence of clone/reverse/subgraph/reach calls interleaved with the caller editing the graphs it got back: every call returns the pure value on the initial G, G unchanged), _shallow_clone_refuted, _cached_reverse_refuted; '
+      'graphs edited after construction: C13_mutator_call, _mutator_histories (any sequence of add_node/add_edge calls, failing ones included: exactly the old nodes/edges plus what the calls named), _incremental_construction (= the constructor). '
       'Tie: same graph enumeration as C12 x node subsets incl. foreign nodes; constructor vs mk_graph on the arguments in five iterable forms; node-object families; add_node/add_edge histories; argument forms of get_reachable_set_from; '
       'results edited through the public API and the call repeated; before/after snapshots and ids of the Python sets.',
       'The heap model of DiGraph is a transcription (constructor = fresh cells), tied to the pure model by theorem; aliasing of the Python sets is additionally monitored at run time.')
